@@ -6,6 +6,7 @@ Prints one line per property: FIRED (violations with keys) or SILENT. Cleans up 
 import os, subprocess, sys, shutil, json
 V = os.path.dirname(os.path.dirname(os.path.abspath(__file__)))
 W = os.environ.get("CFDP_SCRATCH", "/tmp/w/scratch")
+TAG = os.environ.get("CFDP_TAG", "scratch")
 
 def sh(cmd, **kw):
     return subprocess.run(cmd, shell=True, stdout=subprocess.PIPE, stderr=subprocess.STDOUT, text=True, **kw)
@@ -44,7 +45,7 @@ def main():
         print("APPLY-FAILED", r.stdout[-400:]); sys.exit(2)
     rc = 0
     for p in props:
-        r = sh("%s/check %s --repo %s --tag scratch" % (V, p, W))
+        r = sh("%s/check %s --repo %s --tag %s" % (V, p, W, TAG))
         viol = [l.strip() for l in r.stdout.splitlines() if l.strip().startswith(("rule violated:", "UNDECIDED", "ANCHOR-MISSING"))]
         if "INTERNAL" in r.stdout:
             print(p, "INTERNAL", r.stdout[-600:])
